@@ -30,7 +30,11 @@ RULE = ("operations: every row of specificErrors (regenerated from the source) a
         "and its X replaced by a number; int32 codes incl. negative and extreme; random texts with % verbs and raw "
         "bytes; random digit strings of 1..22 digits in every family; tryToProcessErr on a client connected to "
         "loopback listeners (configured / unconfigured / non-numeric / other errors); rpc_error answers through the real "
-        "request path against the scripted peer (c17.rpc). distinct = distinct operation "
+        "request path against the scripted peer (c17.rpc); the whole request path for the error the client handles "
+        "(c17.req / c17.req2: MakeRequest against a home peer that answers rpc_error <every kind of code> PHONE_MIGRATE_n, "
+        "data centre n configured through SetDCList to a second peer of the harness / not configured / other texts; the "
+        "second peer answers pong or an error of its own); two MTProto values in one process, one configured before / "
+        "between / after the other (c17.two). distinct = distinct operation "
         "lines; each is compared with the Lean model and judged by the independent oracle of the property text")
 
 GEN_LEAN = os.path.join(vlib.LEAN, "Mtv", "Gen", "ErrTables.lean")
@@ -70,8 +74,11 @@ def run(ctx):
         "defaultDCList and the statement shape of tryToProcessErr; it is cross-checked behaviourally: every row, every "
         "catalogued name and the default DC ids are exercised on the compiled code and compared with the model fed by "
         "the extracted tables",
-        "tryToProcessErr is run through the verif hook VerifTryToProcessErr on a client connected to bare loopback "
-        "listeners; Reconnect is observed only as 'address switched and one new TCP connection to it'",
+        "c17.process runs tryToProcessErr through the verif hook VerifTryToProcessErr on a client connected to bare loopback "
+        "listeners (Reconnect observed as 'address switched and one new TCP connection to it'); c17.req / c17.req2 / c17.two "
+        "run the public MakeRequest against scripted MTProto peers of the harness (envelope of x_envelope.go) that share one "
+        "auth key (the client keeps its key across Reconnect); for these the Lean driver answers what the model's decision "
+        "(onRpcError on the client's OWN table: default list overridden by its SetDCList) implies for the caller",
     ]
     return vlib.generic_check(ctx, SUB, MODULES, THEOREMS, RULE, gen_hook=regenerate,
                               extra_trusted=("harness/cmd/c17facts (go/ast extractor of the regenerated tables)",))
